@@ -328,24 +328,30 @@ func ruleC01MatchEqual(r *Run, p *Program, rule string) {
 				return false
 			}
 			isKey := func(v ssa.Value) bool {
+				// a byte slice of the enclosing operation: a captured variable, or a field of a captured parameter object
 				return derivesFrom(v, func(x ssa.Value) bool {
-					switch y := x.(type) {
-					case *ssa.FreeVar:
-						_, isSlice := y.Type().Underlying().(*types.Slice)
-						if isSlice {
+					t := x.Type()
+					if pt, ok := t.Underlying().(*types.Pointer); ok {
+						t = pt.Elem()
+					}
+					if _, isSlice := t.Underlying().(*types.Slice); !isSlice {
+						return false
+					}
+					for d := 0; d < 8; d++ {
+						switch y := x.(type) {
+						case *ssa.FreeVar:
 							return true
-						}
-						// captured by reference: *[]byte cell
-						if pt, ok := y.Type().Underlying().(*types.Pointer); ok {
-							_, isSlice = pt.Elem().Underlying().(*types.Slice)
-							return isSlice
-						}
-					case *ssa.UnOp:
-						if fv, ok := y.X.(*ssa.FreeVar); ok && y.Op == token.MUL {
-							if pt, ok := fv.Type().Underlying().(*types.Pointer); ok {
-								_, isSlice := pt.Elem().Underlying().(*types.Slice)
-								return isSlice
+						case *ssa.UnOp:
+							if y.Op != token.MUL {
+								return false
 							}
+							x = y.X
+						case *ssa.FieldAddr:
+							x = y.X
+						case *ssa.Field:
+							x = y.X
+						default:
+							return false
 						}
 					}
 					return false
